@@ -7,5 +7,6 @@ CONSTANTS InitPen = 1
           Grid = {0, 1, 2, 3}
           NSeries = 3
           MaxLen = 2
+          WithCounterInputs = FALSE
 INVARIANTS C40_EveryAggregateSampleKept EachChunkComplete NothingInvented ChunksInOrder OnlyDoneIsFinal
 CHECK_DEADLOCK FALSE
